@@ -201,19 +201,19 @@ Definition plan_of (dg : dgrouped) (parent : list N) : dgrouped * list (list Pla
   let p := Plan.build_execution_plan (to_gfs dg) parent in
   (flat_map (resolve dg) (fst p), map (fun sg => (fst sg, flat_map (resolve dg) (snd sg))) (snd p)).
 
-(* the delivery groups of a deferred grouped field set: for each usage of its set the node found in
-   the set's own field details *)
-Fixpoint find_node (id : N) (l : list dunode) : option dunode :=
+(* the delivery groups of a deferred grouped field set: for each usage of its set the usage (with
+   its parent links) as found in the set's own field details *)
+Definition chains (g : dgrouped) : list duchain := flat_map (fun e => map df_du (snd e)) g.
+
+Fixpoint find_chain (id : N) (l : list duchain) : option duchain :=
   match l with
   | [] => None
-  | n :: r => if dn_id n =? id then Some n else find_node id r
+  | [] :: r => find_chain id r
+  | (n :: a) :: r => if dn_id n =? id then Some (n :: a) else find_chain id r
   end.
 
-Definition heads (g : dgrouped) : list dunode :=
-  flat_map (fun e => flat_map (fun f => match df_du f with [] => [] | n :: _ => [n] end) (snd e)) g.
-
-Definition group_nodes (sdu : list Plan.du) (g : dgrouped) : list dunode :=
-  flat_map (fun d => match find_node (Plan.du_id d) (heads g) with Some n => [n] | None => [] end) sdu.
+Definition group_chains (sdu : list Plan.du) (g : dgrouped) : list duchain :=
+  flat_map (fun d => match find_chain (Plan.du_id d) (chains g) with Some c => [c] | None => [] end) sdu.
 
 (* ------------------------------------------------------------------ results *)
 
@@ -222,11 +222,14 @@ Definition group_nodes (sdu : list Plan.du) (g : dgrouped) : list dunode :=
    group, the delivery groups are completed with errors), its own errors and resolver calls
    (relative to the payload's path) *)
 Record payload := mkPl {
-  pl_path : path; pl_groups : list dunode; pl_data : option (list (str * json));
-  pl_errs : list err; pl_calls : list call }.
+  pl_path : path; pl_groups : list duchain; pl_data : option (list (str * json));
+  pl_errs : list err; pl_calls : list call;
+  pl_nested : bool }.      (* produced by the sub-executor of another execution group *)
 
 Definition pre_pl (seg : pathseg) (p : payload) : payload :=
-  mkPl (seg :: pl_path p) (pl_groups p) (pl_data p) (pl_errs p) (pl_calls p).
+  mkPl (seg :: pl_path p) (pl_groups p) (pl_data p) (pl_errs p) (pl_calls p) (pl_nested p).
+Definition nest_pl (p : payload) : payload :=
+  mkPl (pl_path p) (pl_groups p) (pl_data p) (pl_errs p) (pl_calls p) true.
 Definition pre_pls (seg : pathseg) (ps : list payload) : list payload := map (pre_pl seg) ps.
 
 (* result, payloads of the execution groups created below, "some collection repeated a deferred visit" *)
@@ -301,7 +304,8 @@ Fixpoint dexec_deferred (ef : list N -> list dfield -> option xfres)
       match dexec_deferred ef rest with
       | None => None
       | Some (pls', rv') =>
-          Some (mkPl [] (group_nodes sdu g) r es cs :: match r with Some _ => pls | None => [] end ++ pls',
+          Some (mkPl [] (group_chains sdu g) r es cs false
+                  :: match r with Some _ => map nest_pl pls | None => [] end ++ pls',
                 rv || rv')
       end
     end
@@ -431,6 +435,50 @@ Section DExec.
     end.
 End DExec.
 
+(* ------------------------------------------------------------------ delivery
+   Which execution group values reach the client (work_queue.py): a failed execution group fails every
+   delivery group it belongs to, a failed delivery group takes its whole subtree with it, and a value
+   is delivered iff one of its delivery groups survives.  A delivery group is identified by its path
+   and the identity of its defer usage.  Without failed execution groups nothing is withheld. *)
+
+Definition seg_eqb (a b : pathseg) : bool :=
+  match a, b with
+  | PKey x, PKey y => str_eqb x y
+  | PIdx i, PIdx j => Nat.eqb i j
+  | _, _ => false
+  end.
+
+Fixpoint path_eqb (a b : path) : bool :=
+  match a, b with
+  | [], [] => true
+  | x :: a', y :: b' => seg_eqb x y && path_eqb a' b'
+  | _, _ => false
+  end.
+
+Definition gkey : Type := (path * N)%type.
+Definition node_key (p : path) (n : dunode) : gkey := (firstn (dn_depth n) p, dn_id n).
+Definition gkey_eqb (a b : gkey) : bool := path_eqb (fst a) (fst b) && (snd a =? snd b).
+
+Definition failed_keys (pls : list payload) : list gkey :=
+  flat_map (fun p =>
+    match pl_data p with
+    | Some _ => []
+    | None => flat_map (fun ch => match ch with n :: _ => [node_key (pl_path p) n] | [] => [] end) (pl_groups p)
+    end) pls.
+
+Definition chain_alive (dead : list gkey) (p : path) (ch : duchain) : bool :=
+  negb (existsb (fun n => existsb (gkey_eqb (node_key p n)) dead) ch).
+
+Definition delivered_pl (dead : list gkey) (p : payload) : bool :=
+  match pl_data p, pl_groups p with
+  | None, _ => true
+  | Some _, [] => true
+  | Some _, gs => existsb (chain_alive dead (pl_path p)) gs
+  end.
+
+Definition deliver (pls : list payload) : list payload :=
+  filter (delivered_pl (failed_keys pls)) pls.
+
 (* ------------------------------------------------------------------ requests *)
 
 Inductive dresponse :=
@@ -450,7 +498,7 @@ Definition dexecute_fuel (planning : bool) (fuel : nat) (s : schema) (d : docume
       let flds := match root with DObj _ f => f | _ => [] end in
       match dexec_sels s (d_frags d) cv planning fuel tn flds [([], d_sels d)] [] 0 O with
       | None => DOutOfFuel
-      | Some ((CVal j, es, cs), pls, rv) => DResp j es cs pls rv
+      | Some ((CVal j, es, cs), pls, rv) => DResp j es cs (deliver pls) rv
       | Some ((CErr, es, cs), _, rv) => DResp JNull es cs [] rv
       end
     end
@@ -482,3 +530,81 @@ Definition erase_frag (fr : fragment) : fragment :=
 
 Definition erase_defer (d : document) : document :=
   mkDoc (d_kind d) (d_vars d) (erase_sels (d_sels d)) (map erase_frag (d_frags d)).
+
+(* ------------------------------------------------------------------ the payloads on the wire
+   Each execution group value becomes one subsequent payload of the incremental delivery format
+   (Incr/Merge.v): its best delivery group (longest path) is announced pending at that group's path,
+   the data is delivered with the remaining sub path, the group is completed. *)
+From GV Require Incr.Merge.
+
+Definition best_depth (p : payload) : nat :=
+  fold_right (fun c m => Nat.max (match c with n :: _ => dn_depth n | [] => O end) m) O (pl_groups p).
+
+Definition merge_payload (i : N) (p : payload) : Merge.payload :=
+  let k := best_depth p in
+  match pl_data p with
+  | Some kvs =>
+      Merge.mkPayload [(i, firstn k (pl_path p))] [Merge.IDefer i (skipn k (pl_path p)) (JObj kvs)] [i]
+  | None => Merge.mkPayload [(i, firstn k (pl_path p))] [] [i]
+  end.
+
+Fixpoint merge_payloads (i : N) (ps : list payload) : list Merge.payload :=
+  match ps with
+  | [] => []
+  | p :: r => merge_payload i p :: merge_payloads (i + 1) r
+  end.
+
+(* client-side reassembly of a whole incremental response by the merge oracle *)
+Definition reassemble (j0 : json) (ps : list payload) : option json :=
+  Merge.reassemble j0 [] (merge_payloads 0 ps).
+
+(* the same merge, payload by payload, directly on the model's payloads *)
+Definition merge_into (kvs : list (str * json)) (old : json) : option json :=
+  match old with JObj _ => Some (Merge.merge 200 old (JObj kvs)) | _ => None end.
+
+Definition apply_pl (j : json) (p : payload) : option json :=
+  match pl_data p with
+  | None => Some j
+  | Some kvs => Merge.update_at (pl_path p) (merge_into kvs) j
+  end.
+
+Fixpoint apply_pls (j : json) (ps : list payload) : option json :=
+  match ps with
+  | [] => Some j
+  | p :: r => match apply_pl j p with Some j' => apply_pls j' r | None => None end
+  end.
+
+(* ------------------------------------------------------------------ equality of response data up
+   to the order of object keys (a deferred key necessarily arrives after later non-deferred keys) *)
+From Coq Require Import Permutation.
+
+Inductive jeq : json -> json -> Prop :=
+| jeq_null : jeq JNull JNull
+| jeq_int z : jeq (JInt z) (JInt z)
+| jeq_float n d : jeq (JFloat n d) (JFloat n d)
+| jeq_str x : jeq (JStr x) (JStr x)
+| jeq_bool b : jeq (JBool b) (JBool b)
+| jeq_list a b : jeq_items a b -> jeq (JList a) (JList b)
+| jeq_obj a b c : jeq_kvs a b -> Permutation b c -> jeq (JObj a) (JObj c)
+with jeq_items : list json -> list json -> Prop :=
+| jeqi_nil : jeq_items [] []
+| jeqi_cons x y a b : jeq x y -> jeq_items a b -> jeq_items (x :: a) (y :: b)
+with jeq_kvs : list (str * json) -> list (str * json) -> Prop :=
+| jeqk_nil : jeq_kvs [] []
+| jeqk_cons k x y a b : jeq x y -> jeq_kvs a b -> jeq_kvs ((k, x) :: a) ((k, y) :: b).
+
+(* ------------------------------------------------------------------ documents whose @defer
+   directives are all disabled under the coerced variables (`if: false`, or no @defer at all) *)
+Fixpoint inactive_sel (cv : list (str * value)) (x : selection) : bool :=
+  match x with
+  | SField _ _ _ _ sub => forallb (inactive_sel cv) sub
+  | SSpread _ dirs => match defer_active cv dirs with None => true | Some _ => false end
+  | SInline _ dirs sub =>
+      match defer_active cv dirs with None => true | Some _ => false end && forallb (inactive_sel cv) sub
+  end.
+
+Definition inactive_sels (cv : list (str * value)) (l : list selection) : bool :=
+  forallb (inactive_sel cv) l.
+
+Definition inactive_doc (cv : list (str * value)) (d : document) : bool :=
+  inactive_sels cv (d_sels d) && forallb (fun fr => inactive_sels cv (fr_sels fr)) (d_frags d).
